@@ -34,6 +34,7 @@ import (
 type c15eof struct {
 	x        *c15x
 	yielding map[*types.Func]string // package function -> why
+	foreign  map[*types.Func]bool   // … and the io.EOF it can return was obtained from a foreign read (not only the literal)
 }
 
 func c15HasReadMethod(t types.Type) bool {
@@ -88,11 +89,15 @@ func (e *c15eof) yields(info *types.Info, ex ast.Expr) (string, bool) {
 		return "", false
 	}
 	if why, ok := e.foreignYield(info, call); ok {
-		return why, true
+		return "foreign: " + why, true
 	}
 	if fn := core.Callee(info, call); fn != nil {
 		if why, ok := e.yielding[fn.Origin()]; ok {
-			return fn.Name() + " (" + why + ")", true
+			pre := ""
+			if e.foreign[fn.Origin()] {
+				pre = "foreign: "
+			}
+			return pre + fn.Name() + " (" + why + ")", true
 		}
 	}
 	return "", false
@@ -195,7 +200,7 @@ func c15ErrResult(fl *core.Flow, r *ast.ReturnStmt) ast.Expr {
 
 func (x *c15x) eofLaunder() {
 	c, k := x.c, x.k
-	e := &c15eof{x: x, yielding: map[*types.Func]string{}}
+	e := &c15eof{x: x, yielding: map[*types.Func]string{}, foreign: map[*types.Func]bool{}}
 	// functions of the package that return error
 	var cands []*core.Func
 	for _, f := range x.funcs {
@@ -212,15 +217,10 @@ func (x *c15x) eofLaunder() {
 	for changed := true; changed; {
 		changed = false
 		for _, f := range cands {
-			if _, done := e.yielding[f.Obj.Origin()]; done {
-				continue
-			}
+			key := f.Obj.Origin()
 			fl := x.flow(f)
-			var why string
+			var whys []string
 			ast.Inspect(f.Decl.Body, func(n ast.Node) bool {
-				if why != "" {
-					return false
-				}
 				switch r := n.(type) {
 				case *ast.FuncLit:
 					return false
@@ -229,21 +229,42 @@ func (x *c15x) eofLaunder() {
 					if ex == nil {
 						return true
 					}
-					if len(r.Results) == 1 && len(f.Decl.Type.Results.List) > 0 && fl.F.Obj.Type().(*types.Signature).Results().Len() > 1 {
+					if len(r.Results) == 1 && fl.F.Obj.Type().(*types.Signature).Results().Len() > 1 {
 						// return g() with a multi-value g
 						if w, ok := e.yields(f.Info(), r.Results[0]); ok {
-							why = "returns " + w
+							whys = append(whys, "returns "+w)
 						}
 						return true
 					}
 					if bad, _ := e.reaches(fl, ex, r); len(bad) > 0 {
-						why = "returns " + strings.SplitN(bad[0], " reaches", 2)[0]
+						for _, b := range bad {
+							whys = append(whys, "returns "+strings.SplitN(b, " reaches", 2)[0])
+						}
 					}
 				}
 				return true
 			})
-			if why != "" {
-				e.yielding[f.Obj.Origin()] = why
+			if len(whys) == 0 {
+				continue
+			}
+			isForeign := false
+			for _, w := range whys {
+				if strings.Contains(w, "foreign: ") {
+					isForeign = true
+				}
+			}
+			if _, done := e.yielding[key]; !done {
+				e.yielding[key] = whys[0]
+				changed = true
+			}
+			if isForeign && !e.foreign[key] {
+				e.foreign[key] = true
+				for _, w := range whys {
+					if strings.Contains(w, "foreign: ") {
+						e.yielding[key] = w
+						break
+					}
+				}
 				changed = true
 			}
 		}
@@ -255,25 +276,27 @@ func (x *c15x) eofLaunder() {
 	sort.Strings(ynames)
 	c.Info("S.eof.summary", c15Rac, fmt.Sprintf("%d functions of lib/rac can return io.EOF (a literal end-of-stream answer, or a foreign one passed through):\n%s", len(ynames), strings.Join(ynames, "\n")))
 
-	// The only functions that answer io.EOF are the documented end-of-stream
-	// reporters (the same table the S.cr / S.rd rules use): anything else that
-	// can return one is passing a foreign io.EOF on to a caller that will take
-	// it for a normal end.
-	reporters := map[string]bool{"NextChunk": true, "Read": true, "nextChunk": true}
+	// No function of the package hands a foreign io.EOF to its caller. (The
+	// literal io.EOF is an answer — "no more chunks", "end of stream" — and the
+	// functions that give it are listed in the summary above; S.cr / S.rd hold
+	// them to their own rules.)
 	var leaks []string
+	nLiteral := 0
 	for fn, why := range e.yielding {
-		if !reporters[fn.Name()] {
+		if e.foreign[fn] {
 			leaks = append(leaks, k.g.Pos(fn.Pos())+": "+core.FuncFullName(fn)+" "+why)
+		} else {
+			nLiteral++
 		}
 	}
 	sort.Strings(leaks)
-	onlyClaim := "the functions of lib/rac that can return io.EOF are exactly its end-of-stream reporters (NextChunk, nextChunk and the Read methods); no other function passes on an io.EOF obtained from reading the file"
+	onlyClaim := "no function of lib/rac returns an io.EOF that it obtained from reading the compressed file (io.ReadFull, Read, ReadAt, a codec handed the file) without a comparison excluding it: to every caller, io.EOF from this package means the deliberate end-of-stream answer"
 	if len(leaks) > 0 {
 		c.Fail("S.eof.only", c15Rac, onlyClaim, len(cands), strings.Join(leaks, "\n"))
 	} else {
-		c.Pass("S.eof.only", c15Rac, onlyClaim, len(cands), fmt.Sprintf("%d error-returning functions summarised, %d reporters", len(cands), len(e.yielding)))
+		c.Pass("S.eof.only", c15Rac, onlyClaim, len(cands), fmt.Sprintf("%d error-returning functions summarised, %d give the literal answer", len(cands), nLiteral))
 	}
-	c.Floor("S.eof.only", "end-of-stream reporters found (ChunkReader.NextChunk, Reader.nextChunk, Reader.Read, concReader.Read, zeroesReader.Read)", len(e.yielding), 5)
+	c.Floor("S.eof.only", "error-returning functions of lib/rac summarised", len(cands), 40)
 
 	// Stores into the two sticky fields.
 	nstores, nyield := 0, 0
